@@ -508,7 +508,7 @@ class TokenEncoder:
                 raise pending_error
             stropped = self._encoding_failure_handler(self, stropped, token_type, pending_error)
 
-        return stropped
+        return _verified_token(self, stropped, token_type_lower)
 
     # +----------------------------------------------------------------------------------------------------------------+
     # | Language CONFIGURATION HELPERS
@@ -704,3 +704,16 @@ class TokenEncoder:
         map_of_list_of_patterns["any"] = any_patterns
 
         return map_of_list_of_patterns
+
+
+def _verified_token(encoder: TokenEncoder, token: str, token_type: str) -> str:
+    """
+    A token produced by a failure handler has not been checked against the rule family that handler repairs, nor
+    against the families checked before it ran. Make a final pass over all three without handlers so that
+    :meth:`TokenEncoder.strop` either returns a valid, unreserved token or raises.
+    """
+    # pylint: disable=protected-access
+    encoder._do_for_type_and_all(encoder._strop_by_pattern, token, token_type, True)
+    encoder._do_for_type_and_all(encoder._strop_by_keyword, token, token_type, True)
+    encoder._do_for_type_and_all(encoder._encode, token, token_type, True)
+    return token
